@@ -403,7 +403,12 @@ def execute(case):
                 rec["held"]["ca"] = rec["obj"].ca
             res.label("reference_assigned_to_constant")
         elif kind == "src_bump":
-            src.v = [100 + op[1]]        # what the refused references point at changes: no constant may follow (check_held)
+            try:
+                src.v = [100 + op[1]]    # what the refused references point at changes: no constant may follow (check_held)
+            except (_Boom, TypeError) as e:
+                # nothing of the instances may be listening to the source: every reference was refused
+                res.fail("C14.constant_rebound", f"{tag}: the source of the refused references changed and an instance reacted to it "
+                                                 f"({type(e).__name__}: {e}): a refused reference is live")
             res.label("source_of_refused_reference_changes")
         elif kind == "trig_assign":
             if not insts:
@@ -425,6 +430,9 @@ def execute(case):
             h = o.param.watch(attempt, "n", onlychanged=False)
             try:
                 o.param.trigger("n")
+            except _Boom as e:
+                # (only the watcher of a constant *flag* raises this: param.trigger has no business lowering a flag)
+                res.fail("C14.constant_rebound", f"{tag}: param.trigger of an ordinary parameter touched the constant flags of inst{idx} ({e})")
             finally:
                 o.param.unwatch(h)
             if outcome == ["accepted"] and getattr(o, n) is not rec["held"][n]:
